@@ -27,6 +27,7 @@ def gen_case(rng, tier):
     prof = B.default_profile(rng)
     prof["w_op"] = rng.choice([0, 0, 1])
     prof["views"] = rng.random() < 0.3  # dependencies through subviews of one allocation
+    prof["multiblock"] = rng.random() < 0.1  # several blocks (cf.cond_br): a barrier in one block does not cover the next
     ast = B.BufGen(rng, prof).program()
     envs = [B.gen_env(rng, zero_trips=prof["zero_trips"]) for _ in range(K_ENVS[tier])]
     envs[0]["stall"] = False
@@ -120,6 +121,12 @@ def shrink(case):
         yield dict(case, variant="A")
     for nb in B.shrink_body(case["ast"]["body"]):
         yield dict(case, ast=dict(case["ast"], body=nb))
+    if case["ast"].get("blocks"):
+        b1, b2 = case["ast"]["blocks"]
+        for nb in B.shrink_body(b1):
+            yield dict(case, ast=dict(case["ast"], blocks=[nb, b2]))
+        for nb in B.shrink_body(b2):
+            yield dict(case, ast=dict(case["ast"], blocks=[b1, nb]))
 
 
 def sample_of(case):
